@@ -68,13 +68,28 @@ Inductive dmsg :=
 | DNil (e : Z)              (* DelayTx without Tx *)
 | DTx (s : sub) (e : Z).
 
-(** Mempool.eventAddDelayTx: the ungated blacklist check of the delayed transaction itself, then the cache *)
+(** mempool checkDelayTxBlocked (both delay entry points): the ungated blacklist check of the
+    delayed transaction itself, then, when Transaction.GetTxGroup yields a group, of every member
+    (first hit wins) *)
+Fixpoint first_blocked (ms : list txf) : option pos :=
+  match ms with
+  | [] => None
+  | t :: tl => match blocked_pos t with Some p => Some p | None => first_blocked tl end
+  end.
+
+Definition delay_blocked (s : sub) : option pos :=
+  match blocked_pos (s_outer s) with
+  | Some p => Some p
+  | None => match s_shape s with Group ms _ => first_blocked ms | _ => None end
+  end.
+
+(** Mempool.eventAddDelayTx: checkDelayTxBlocked, then the cache *)
 Definition delay_step (sc : scfg) (dc : dcache) (d : dmsg) : N * dcache :=
   match d with
   | DBad => (R_DPARAM, dc)
   | DNil _ => (R_DNIL, dc)
   | DTx s e =>
-      match blocked_pos (s_outer s) with
+      match delay_blocked s with
       | Some p => (r_blocked p, dc)
       | None => dc_add (dcap sc) dc s e
       end
@@ -107,7 +122,7 @@ Fixpoint add_commits (cap : Z) (b : blk) (dc : dcache) (cs : list (sub * Z * Z))
   match cs with
   | [] => dc
   | (s, rt, rh) :: tl =>
-      let dc' := match blocked_pos (s_outer s) with
+      let dc' := match delay_blocked s with
                  | Some _ => dc
                  | None => snd (dc_add cap dc s (commit_end b rt rh))
                  end in
